@@ -53,6 +53,7 @@ func runShape(t *testing.T, sh shape) {
 				return true
 			}
 			res := runScript(s, nil)
+			noteParking(check, res)
 			labels := []string{"mutex:" + mutex}
 			if res.Blocked > 0 {
 				labels = append(labels, "blocked_then_granted")
@@ -67,11 +68,19 @@ func runShape(t *testing.T, sh shape) {
 			}
 			return true
 		})
-		stats.Note(check, "space_size_"+mutex, n)
+		if shard == 0 {
+			stats.Note(check, "space_size_"+mutex, n)
+		}
 		if sh.sampleStride == 1 {
 			stats.Bulk(check, 0, 0, true, nil)
 		}
 	}
+}
+
+// noteParking records how well the arrival order was enforced (diagnostic only).
+func noteParking(check string, res result) {
+	stats.NoteAdd(check, "must_block_ops_confirmed_parked_before_next_issue", int64(res.Parked))
+	stats.NoteAdd(check, "must_block_ops_not_confirmed_parked", int64(res.NotParked))
 }
 
 func joinLines(l []string) string {
